@@ -27,16 +27,17 @@ var Ops = []string{
 	"Mkdir(/w/n)", "CreateExcl(/w/n)", "WriteFile(/w/n)", "Link(/w/b,/w/n)", "Rename(/w/b,/w/n)", "Rename(/w/a/a,/w/n)",
 	"Remove(/w/b)", "Remove(/w/a/a)", "RemoveAll(/w/a)", "MkdirAll(/w/a/x/y)", "ReadDir(/w)", "ReadDir(/w/a)",
 	"Rename(/w/a/a,/w/e/x)", "Rename(/w/e/f,/w/a/y)", "Rename(/w/a,/w/e/a2)", "Stat(/w/a/a)", "ReadFile(/w/b)", "MkdirTemp(/w)", "CreateTemp(/w)",
-	"Symlink(a,/w/n)", "Truncate(/w/b)", "Chmod(/w/b)",
+	"Symlink(a,/w/n)", "Truncate(/w/b)", "Chmod(/w/b)", "Rename(/w/a/c,/w/a/a)", "Link(/w/a/c,/w/n)",
 }
 
 // NumOps is len(Ops).
-const NumOps = 22
+const NumOps = 24
 
 func seed(v avfs.VFS) {
 	hx.Must(v.MkdirAll("/w/a", 0o755))
 	hx.Must(v.Mkdir("/w/e", 0o755))
 	hx.Must(v.WriteFile("/w/a/a", []byte("x"), 0o644))
+	hx.Must(v.WriteFile("/w/a/c", []byte("c"), 0o644))
 	hx.Must(v.WriteFile("/w/b", []byte("yy"), 0o644))
 	hx.Must(v.WriteFile("/w/e/f", []byte("z"), 0o644))
 }
@@ -118,6 +119,10 @@ func run(v avfs.VFS, i int) string {
 		return code(v.Truncate("/w/b", 1))
 	case "Chmod(/w/b)":
 		return code(v.Chmod("/w/b", 0o600))
+	case "Rename(/w/a/c,/w/a/a)":
+		return code(v.Rename("/w/a/c", "/w/a/a"))
+	case "Link(/w/a/c,/w/n)":
+		return code(v.Link("/w/a/c", "/w/n"))
 	}
 	return "?"
 }
@@ -182,7 +187,7 @@ func same(a, b []string) bool {
 	return true
 }
 
-func concurrent(kind int, ops []int) (res []string, tree string) {
+func concurrent(kind int, ops []int) (res []string, tree string, counts string) {
 	base, vs := views(kind, len(ops))
 	res = make([]string, len(ops))
 	var wg sync.WaitGroup
@@ -194,7 +199,10 @@ func concurrent(kind int, ops []int) (res []string, tree string) {
 		}(k)
 	}
 	wg.Wait()
-	return res, hx.Snapshot(base, "/w", false)
+	es, _ := base.ReadDir("/w")
+	ea, _ := base.ReadDir("/w/a")
+	ee, _ := base.ReadDir("/w/e")
+	return res, hx.Snapshot(base, "/w", false), hx.Itoa(len(es)) + "+" + hx.Itoa(len(ea)) + "+" + hx.Itoa(len(ee))
 }
 
 func check(kind int, ops []int, orders [][]int) {
@@ -204,7 +212,7 @@ func check(kind int, ops []int, orders [][]int) {
 	}
 	sym.Label(label)
 	sym.Reach("concurrent")
-	res, tree := concurrent(kind, ops)
+	res, tree, counts := concurrent(kind, ops)
 	sym.Reach("joined")
 	ok := false
 	for _, ord := range orders {
@@ -214,7 +222,19 @@ func check(kind int, ops []int, orders [][]int) {
 			break
 		}
 	}
-	sym.Assert(ok, "C06|"+label+"|not-linearizable")
+	if !ok {
+		// the observed outcome is part of the signature: a different wrong outcome
+		// of the same pair is a different finding
+		got := ""
+		for _, r := range res {
+			i := 0
+			for i < len(r) && r[i] != ':' {
+				i++
+			}
+			got += r[:i] + ";"
+		}
+		sym.Assert(false, "C06|"+label+"|not-linearizable|got="+got+"|entries="+counts)
+	}
 	// temporary names handed to two callers are different
 	for i := range res {
 		for j := i + 1; j < len(res); j++ {
@@ -261,7 +281,7 @@ func HTempPair(kind, dirA, dirB int) {
 	_, e1 := base.Lstat(res[1])
 	sym.Assert(e0 == nil && e1 == nil, "C06|"+hx.KindName(kind)+"|TempPair|returned-name-does-not-exist")
 	es, _ := base.ReadDir("/w")
-	sym.Assert(len(es) == 5, "C06|"+hx.KindName(kind)+"|TempPair|entries-lost-or-duplicated")
+	sym.Assert(len(es) == 5, "C06|"+hx.KindName(kind)+"|TempPair|entries-lost-or-duplicated") // a, b, e + the two new entries
 }
 
 // HPair: two goroutines, one call each.
